@@ -123,6 +123,20 @@ def run(ctx):
             modes["GIT_DIR, from inside another repository's .git"] = subprocess.run([ctx["bins"]["sizer"]] + args, cwd=ogit, env=e2, stdout=subprocess.PIPE, stderr=subprocess.PIPE)
             modes["git --git-dir, from the top of another repository"] = subprocess.run(["git", "--git-dir", gitdir, "sizer"] + args, cwd=od, env=env, stdout=subprocess.PIPE, stderr=subprocess.PIPE)
             modes["git -C, from the top of another repository"] = subprocess.run(["git", "-C", d, "sizer"] + args, cwd=od, env=env, stdout=subprocess.PIPE, stderr=subprocess.PIPE)
+            # the object store lives elsewhere: named by the caller's environment (GIT_OBJECT_DIRECTORY, as inside a
+            # quarantined pre-receive hook; GIT_ALTERNATE_OBJECT_DIRECTORIES) or by objects/info/alternates
+            for how in ("GIT_OBJECT_DIRECTORY", "GIT_ALTERNATE_OBJECT_DIRECTORIES", "objects/info/alternates"):
+                d2 = os.path.join(scratch, "store%d-%d" % (it, len(modes)))
+                shutil.copytree(d, d2, symlinks=True)
+                objs = os.path.join(scratch, "objs%d-%d" % (it, len(modes)))
+                shutil.move(os.path.join(d2, ".git", "objects"), objs)
+                os.makedirs(os.path.join(d2, ".git", "objects", "info"))
+                e3 = dict(env)
+                if how == "objects/info/alternates":
+                    open(os.path.join(d2, ".git", "objects", "info", "alternates"), "w").write(objs + "\n")
+                else:
+                    e3[how] = objs
+                modes["a work tree whose objects are found through " + how] = subprocess.run([ctx["bins"]["sizer"]] + args, cwd=d2, env=e3, stdout=subprocess.PIPE, stderr=subprocess.PIPE)
             wt = os.path.join(scratch, "wt%d" % it)
             r = git(["worktree", "add", "-q", "--detach", wt], d, env, check=False)
             if r.returncode == 0:
